@@ -1183,7 +1183,7 @@ func checkPerGraphResolver(r *Run, p *packages.Package) {
 						if sel, ok := ast.Unparen(rs.X).(*ast.SelectorExpr); ok && sel.Sel.Name == "Graphs" {
 							// … on every iteration: a construction under a condition keeps the previous graph's index
 							// for the graphs that do not meet it
-							if conds := pathConditions(rs.Body, call); len(conds) > 0 {
+							if conds := controlConds(rs.Body, call); len(conds) > 0 {
 								conditional = exprString(r.Fset, conds[0].Expr)
 							} else {
 								perGraph = "constructed on every iteration of the loop over " + exprString(r.Fset, rs.X)
